@@ -37,6 +37,10 @@ func genC15(rt *rapid.T) *c15Case {
 	p.ReverseDns = rapid.Bool().Draw(rt, "rdns")
 	p.PublicIP = rapid.Bool().Draw(rt, "pubip")
 	c.Rq.Fetcher = oneOf(rt, "fetcher", "", "", "error", "slow")
+	// the caller's context may end while the request is still pacing its e2e probes
+	if p.E2e >= 2 && oneOf(rt, "cancel", false, false, true) {
+		c.Rq.CancelAtUs = int64(rapid.IntRange(1, 1000*p.TimeoutMs*p.MaxTTL).Draw(rt, "cancel_at_us"))
+	}
 	c.Rq.DNSDefault = DNSScript{Names: []string{"h.example."}, DelayMs: oneOf(rt, "dns_delay", 0, 30)}
 	// per-flow worlds with different shapes and durations (completion orders)
 	nScripts := rapid.IntRange(1, 4).Draw(rt, "n_scripts")
@@ -101,10 +105,17 @@ func checkC15(t *testing.T, c *c15Case, rec *Recorder) []Diff {
 	// count failed runs as the number of distinct fired sentinels' owners via the ledger is not possible,
 	// so the generator keeps FailSinks and FailReads disjoint in index and the oracle bounds the count.
 	fired := len(o.Wire.Fired)
+	cancelled := rq.CancelAtUs > 0 && us(rq.CancelAtUs) <= o.Elapsed
+	if cancelled {
+		labels = append(labels, "cancelled-during-request")
+	}
 	if fired == 0 {
 		labels = append(labels, "no-failure")
 		if o.Err != nil {
-			add("error-without-failure", "no run or probe failed but the request returned an error: %v", o.Err)
+			// a cancelled context may legitimately fail runs that honour it (icmp); otherwise nothing failed
+			if !cancelled {
+				add("error-without-failure", "no run or probe failed but the request returned an error: %v", o.Err)
+			}
 		} else {
 			if got := len(o.Res.Traceroute.Runs); got != p.Queries {
 				add("run-count", "%d traceroute runs in the result, %d requested", got, p.Queries)
@@ -124,11 +135,16 @@ func checkC15(t *testing.T, c *c15Case, rec *Recorder) []Diff {
 				ids[r.RunID] = true
 			}
 			// e2e samples: the multiset must equal what the world scripted for the single-probe flows
-			if p.MinTTL < p.MaxTTL {
+			if p.MinTTL < p.MaxTTL && !cancelled {
 				var want []float64
-				for _, key := range o.World.Order {
-					fs := o.World.flows[key]
-					if len(fs.probes) != 1 || fs.probes[p.MaxTTL] == nil {
+				// one sink per e2e probe (two sequential probes may be handed the same ephemeral port by the
+				// kernel and then share a flow key, so flows cannot be counted)
+				for _, probes := range sinkProbes(o.Wire) {
+					if len(probes) != 1 || int(probes[0].TTL) != p.MaxTTL {
+						continue
+					}
+					fs := o.World.flows[probes[0].FlowKey()]
+					if fs == nil {
 						continue
 					}
 					sc := o.World.script(fs.idx)
@@ -168,7 +184,8 @@ func checkC15(t *testing.T, c *c15Case, rec *Recorder) []Diff {
 				n := len(j.Unwrap())
 				// every fired fault aborts exactly one run; two faults can hit the same run only if its sink and
 				// source indices were both selected, which the index-disjoint generator excludes
-				if n != fired {
+				// a cancelled context can fail further runs (those that honour it) on top of the injected failures
+				if n != fired && !(cancelled && n > fired) {
 					add("failure-count", "joined error has %d members, %d runs/probes failed", n, fired)
 				}
 			} else if fired > 1 {
